@@ -133,7 +133,7 @@ func (p c13) scenario(r *core.Result, s c13scn, seed uint64) {
 	tag := fmt.Sprintf("%s over %s buf=%d traffic=%s", s.Initiator, s.Transport, s.Buf, s.Traffic)
 	key := func(k string) string { return "C13/" + k + "/" + s.Initiator + "/" + s.Transport }
 	core.CanaryReset()
-	starved := func() bool { return core.CanaryWorstMS() > 1500 }
+	starved := func() bool { return core.CanaryWorstMS() > 600 }
 	fail := func(k, format string, a ...interface{}) {
 		if starved() {
 			r.Verdict = core.Inconclusive
